@@ -27,13 +27,14 @@ func vC13Layout(k, exec int) []elf.ProgHeader {
 		n := strconv.Itoa(i)
 		p.Type = elf.PT_LOAD
 		// p_offset ≡ p_vaddr (mod page) by construction: same low 12 bits
-		low := vUint64("low"+n) & (vPage - 1)
+		low := vUint64("low" + n)
+		vAssume(low < vPage)
 		opg := vUint64("offpg" + n)
 		vpg := vUint64("vaddrpg" + n)
 		vAssume(opg < lim>>12)
 		vAssume(vpg < lim>>12)
-		p.Off = opg<<12 | low
-		p.Vaddr = vpg<<12 | low
+		p.Off = opg<<12 + low
+		p.Vaddr = vpg<<12 + low
 		p.Filesz = vUint64("filesz" + n)
 		p.Memsz = vUint64("memsz" + n)
 		p.Paddr = p.Vaddr
@@ -84,12 +85,16 @@ func VerifC13ObjAddr() {
 	// optional split of the VMA at a page boundary (mprotect, huge pages...)
 	switch vChoice("split", 3) {
 	case 1: // keep the low part
-		s := vUint64("splitpg") << 12
+		spg := vUint64("splitpg")
+		vAssume(spg < uint64(1)<<36)
+		s := spg << 12
 		vAssume(start < s)
 		vAssume(s < limit)
 		limit = s
 	case 2: // keep the high part
-		s := vUint64("splitpg") << 12
+		spg := vUint64("splitpg")
+		vAssume(spg < uint64(1)<<36)
+		s := spg << 12
 		vAssume(start < s)
 		vAssume(s < limit)
 		offset += s - start
@@ -116,6 +121,13 @@ func VerifC13ObjAddr() {
 	vReach("C13_objaddr:called")
 	vObserve(err == nil, got)
 	if err == nil {
+		if dyn && x.Vaddr == start-offset {
+			// GetBase tries its kernel heuristics first for ET_DYN; the first one
+			// (segment vaddr == mapping start - mapping offset) also matches user
+			// space objects loaded at a bias equal to the segment's page offset.
+			vAssert(got == addr-bias, "C13.objaddr.wrong.kernel-heuristic-on-user-dyn: ObjAddr returned an address different from runtime address minus load bias (ET_DYN, vaddr == start-offset)")
+			return
+		}
 		vAssert(got == addr-bias, "C13.objaddr.wrong: ObjAddr returned an address different from runtime address minus load bias")
 		return
 	}
